@@ -41,6 +41,8 @@ HOSTILE_PATHS = ["//evil.example/x", "/@evil.example/x", "/api/@evil.example", "
                  "/api/cafe\u0301/menu?q=re\u0301sume\u0301", "/mirror/\u212a/280", "/api/x\u037ey=1", "/api/\u1112\u1161\u11ab",
                  "/api/caf\u00e9/\u65e5\u672c",
                  # the path is exactly a prefix that has no trailing slash, and there is a query
+                 # trailing white space that belongs to the path or query (urlparse keeps it)
+                 "/api/search?q=hello\u3000", "/api/wiki/Main\u00a0", "/mirror/notes/a\u2003", "/api/x?q=\u00a0",
                  "/api?cats", "/api?", "/mirror?x=/y", "/a/b?q=1", "/api/v1?k=v", "/api?a?b", "/apikey?x"]
 
 
